@@ -61,6 +61,8 @@ typedef struct {
  */
 void   snoopy_tsrm_ctor ();
 void   snoopy_tsrm_dtor ();
+void   snoopy_tsrm_forkGuard_enter ();
+void   snoopy_tsrm_forkGuard_leave ();
 
 
 
